@@ -343,6 +343,7 @@ func genC08(ctx *fw.Ctx) []fw.Case {
 	}
 	cases = append(cases, fw.Case{ID: "api/numbers-used-outside-their-function", Run: c08APIOutsideUses})
 	cases = append(cases, fw.Case{ID: "params/named-among-numbered", Run: c08ParamSpellings})
+	cases = append(cases, fw.Case{ID: "spellings/empty-names-and-interleaved-definitions", Run: c08OtherSpellings})
 	cases = append(cases, fw.Case{ID: "api/function-printed-edited-printed", Run: c08APIFuncPrintEditPrint})
 	return cases
 }
@@ -945,5 +946,138 @@ func c08APIOutsideUses(r *fw.Rec) {
 			}
 			r.Nontrivial(fmt.Sprintf("api-outside-use/%d/%d", withGlobals, extra))
 		}
+	}
+}
+
+// c08OtherSpellings writes numberings in two rarely used spellings LLVM accepts:
+// (a) the empty quoted name (`%"" = ...`, `"":`, `@"" = ...`, a parameter `%""`),
+// which stands for "unnamed, next number" in any position, next to its twin
+// written with explicit numbers: both must parse and print the same text;
+// (b) attribute-group and metadata definitions placed between unnamed globals
+// and functions (their own numbers have nothing to do with the numbering of
+// globals), with IDs chosen to differ from the number the next global gets.
+func c08OtherSpellings(r *fw.Rec) {
+	rng := r.Ctx().Rand("c08other")
+	for round := 0; round < r.Ctx().Pick(40, 400); round++ {
+		// (a)
+		nparams := rng.Intn(3)
+		nblocks := 1 + rng.Intn(3)
+		var a, b strings.Builder // a: empty quoted names, b: explicit numbers
+		var ps1, ps2 []string
+		next := 0
+		for i := 0; i < nparams; i++ {
+			ps1 = append(ps1, "i32 %\"\"")
+			ps2 = append(ps2, fmt.Sprintf("i32 %%%d", next))
+			next++
+		}
+		fmt.Fprintf(&a, "define i32 @f(%s) {\n", strings.Join(ps1, ", "))
+		fmt.Fprintf(&b, "define i32 @f(%s) {\n", strings.Join(ps2, ", "))
+		last := "7"
+		blockNums := make([]int, nblocks)
+		var bodiesA, bodiesB []string
+		// numbers are assigned in order: block, its instructions, next block, ...
+		n := next
+		type blk struct{ num, nInst int }
+		var blks []blk
+		for k := 0; k < nblocks; k++ {
+			bl := blk{num: n, nInst: 1 + rng.Intn(3)}
+			n += 1 + bl.nInst
+			blks = append(blks, bl)
+			blockNums[k] = bl.num
+		}
+		for k, bl := range blks {
+			var ba, bb strings.Builder
+			if k == 0 && rng.Intn(2) == 0 {
+				// the entry block may also go without any label
+			} else {
+				ba.WriteString("\"\":\n")
+				fmt.Fprintf(&bb, "%d:\n", bl.num)
+			}
+			for j := 0; j < bl.nInst; j++ {
+				num := bl.num + 1 + j
+				fmt.Fprintf(&ba, "  %%\"\" = add i32 %s, %d\n", last, j+1)
+				fmt.Fprintf(&bb, "  %%%d = add i32 %s, %d\n", num, last, j+1)
+				last = fmt.Sprintf("%%%d", num)
+			}
+			if k+1 < len(blks) {
+				fmt.Fprintf(&ba, "  br label %%%d\n", blks[k+1].num)
+				fmt.Fprintf(&bb, "  br label %%%d\n", blks[k+1].num)
+			} else {
+				fmt.Fprintf(&ba, "  ret i32 %s\n", last)
+				fmt.Fprintf(&bb, "  ret i32 %s\n", last)
+			}
+			bodiesA = append(bodiesA, ba.String())
+			bodiesB = append(bodiesB, bb.String())
+		}
+		a.WriteString(strings.Join(bodiesA, "") + "}\n")
+		b.WriteString(strings.Join(bodiesB, "") + "}\n")
+		// (b) unnamed globals and functions with attribute groups and metadata definitions between them
+		var mod strings.Builder
+		gnum := 0
+		lastVar := -1
+		ng := 2 + rng.Intn(4)
+		for g := 0; g < ng; g++ {
+			switch rng.Intn(3) {
+			case 0:
+				fmt.Fprintf(&mod, "@%d = global i32 %d\n", gnum, g)
+				lastVar = gnum
+			case 1:
+				fmt.Fprintf(&mod, "@\"\" = global i32 %d\n", g)
+				lastVar = gnum
+			default:
+				fmt.Fprintf(&mod, "define void @%d() #%d {\n  ret void, !t !%d\n}\n", gnum, 20+g, 30+g)
+				fmt.Fprintf(&mod, "attributes #%d = { nounwind }\n!%d = !{i32 %d}\n", 20+g, 30+g, g)
+			}
+			gnum++
+			if rng.Intn(2) == 0 {
+				fmt.Fprintf(&mod, "attributes #%d = { noreturn }\n", 9-g)
+			}
+			if rng.Intn(2) == 0 {
+				fmt.Fprintf(&mod, "!%d = !{!\"between\"}\n", 19-g)
+			}
+		}
+		if lastVar >= 0 {
+			fmt.Fprintf(&mod, "@last = global i32* @%d\n", lastVar)
+		}
+		xa, xb := a.String()+mod.String(), b.String()+mod.String()
+		for _, x := range []string{xa, xb} {
+			if ok, msg, err := llvmref.Accepts(x); err != nil || !ok {
+				r.Inconclusive("generated spelling not valid for LLVM 14 (generator issue): " + classify(firstLine(lastDiag(msg))))
+				r.Note("c08OtherSpellings rejected by LLVM: " + firstLine(lastDiag(msg)) + "\n" + x)
+				xa = ""
+			}
+		}
+		if xa == "" {
+			continue
+		}
+		r.Eval(1)
+		ma, ea, pa := parseGuard("c08-empty-names", xa)
+		mb, eb, pb := parseGuard("c08-explicit-numbers", xb)
+		if pa != "" || ea != nil || pb != "" || eb != nil {
+			what := pa + pb
+			if ea != nil {
+				what = ea.Error()
+			} else if eb != nil {
+				what = eb.Error()
+			}
+			r.Violate(fw.Violation{Key: "spellings/rejected", Input: xa, What: "a numbering LLVM accepts (empty quoted names / definitions between unnamed globals) is rejected by the parser: " + firstLine(what), Observed: xb})
+			return
+		}
+		ya, ppa := printGuard(ma)
+		yb, ppb := printGuard(mb)
+		if ppa != "" || ppb != "" {
+			r.Violate(fw.Violation{Key: "spellings/print-panic", Input: xa, What: firstLine(ppa + ppb)})
+			return
+		}
+		if ya != yb {
+			r.Violate(fw.Violation{Key: "spellings/empty-names-numbered-differently", Input: xa, What: "the module written with empty quoted names prints differently from its twin written with explicit numbers: " + firstDiffLines(yb, ya), Expected: yb, Observed: ya})
+			return
+		}
+		if ok, msg, err := llvmref.Accepts(ya); err == nil && !ok {
+			r.Violate(fw.Violation{Key: "spellings/printed-numbering-invalid", Input: xa, What: "LLVM rejects the printed module: " + firstLine(lastDiag(msg)), Observed: ya})
+			return
+		}
+		r.Nontrivial(xa)
+		r.Tally("spellings", "empty-names-and-interleaved-definitions:ok")
 	}
 }
